@@ -1142,6 +1142,9 @@ pub fn op_retain(who: usize, pool: &Pool<Mgr>) {
     let mut must_visit: Option<Vec<usize>> = None;
     let r = pool.retain(|o: &Obj, m: Metrics| {
         let id = o.id;
+        // the predicate is user code: other threads run while it does (on the
+        // unchanged pool they can only queue up behind the slots lock)
+        sched::pause("retain predicate");
         if must_visit.is_none() {
             must_visit = Some(w(|w| certainly_idle(w)));
         }
@@ -1252,7 +1255,13 @@ pub fn op_close(who: usize, pool: &Pool<Mgr>) {
         w.close_begun = true;
     });
     pool.close();
+    // "once close() has returned ... is_closed() stays true" - for every
+    // close() call, also one that found another close() in progress
+    let closed_now = pool.is_closed();
     w(|w| {
+        if !closed_now {
+            w.violate(&["C06"], "is-closed-false", "is_closed() is false right after close() returned".to_string());
+        }
         w.close_returned = true;
         w.limit = 0;
         w.limit_alt = None;
